@@ -88,6 +88,15 @@ class OTarget(Referenceable):
         self.got.append(x)
 
 
+class RIRefsX(RemoteInterface):
+    """the objects O exports declare an interface, so that the holder's tracker shows (interfaceName is not None) whether it was
+    created from the LONG form of a my-reference -- interface name and FURL travel together, only when send() says "first"
+    (model: t_url; two bare Brokers have no Tub, so the FURL itself is always absent here)"""
+    def ping():
+        return None
+
+
+@implementer(RIRefsX)
 class X(Referenceable):
     def __init__(self, k):
         self.k = k
@@ -501,7 +510,10 @@ class World:
         O, H = self.O, self.H
         otab = sorted((self.key_of(t.obj) if self.key_of(t.obj) is not None else -1, c, t.refcount)
                       for c, t in O.myReferenceByCLID.items())
-        htab = sorted((c, t.received_count, 1 if (t.ref is not None and t.ref() is not None) else 0)
+        # 4th component: was the tracker created from the long form (model: t_url <> None); not observable for O's own target
+        # (clid 1, made by hand) and for bound methods (negative clids: no schema name is sent yet)
+        htab = sorted((c, t.received_count, 1 if (t.ref is not None and t.ref() is not None) else 0,
+                       (1 if t.interfaceName is not None else 0) if c > 1 else -1)
                       for c, t in H.yourReferenceByCLID.items())
         acks = sorted(r for r in H.waitingForAnswers)
         return dict(otab=[list(x) for x in otab], htab=[list(x) for x in htab], acks=acks,
@@ -773,6 +785,8 @@ class Recorder:
         self.groups.append(ops)
         self.obs.append(ob)
         self.snaps.append(W.snapshot())
+        if any(len(h) > 3 and h[2] == 1 and h[3] == 0 for h in self.snaps[-1]["htab"]):
+            self.flags.add("live-proxy-without-long-form")
 
     def finish(self):
         W = self.W
@@ -843,8 +857,9 @@ Definition ev_code (e : event) : list Z :=
 Definition obs (s : state) :=
   (map (fun e => [oe_obj e; oe_clid e; oe_rc e]) (o_tab (ow s)),
    map (fun e => match nth_error (h_trk (hd s)) (snd e) with
-                 | Some t => [fst e; t_recv t; if alive t then 1 else 0]
-                 | None => [fst e; -1; -1] end) (h_tab (hd s)),
+                 | Some t => [fst e; t_recv t; if alive t then 1 else 0;
+                              if 1 <? fst e then match t_url t with Some _ => 1 | None => 0 end else -1]
+                 | None => [fst e; -1; -1; -1] end) (h_tab (hd s)),
    map fst (h_acks (hd s)),
    [Z.of_nat (List.length (ch_oh s)); Z.of_nat (List.length (ch_ho s)); if lost s then 1 else 0; if o_failed (ow s) then 1 else 0]).
 Fixpoint run_groups (s : state) (gs : list (list op)) :=
